@@ -148,7 +148,7 @@ func Add(a, b Term) Term {
 	if b.C != nil && b.C.Sign() == 0 {
 		return a
 	}
-	return binc("bvadd", a, b, func(x, y *big.Int) *big.Int { return new(big.Int).Add(x, y) })
+	return reg(binc("bvadd", a, b, func(x, y *big.Int) *big.Int { return new(big.Int).Add(x, y) }), &node{op: "add", a: a, b: b})
 }
 func Sub(a, b Term) Term {
 	if b.C != nil && b.C.Sign() == 0 {
@@ -157,7 +157,7 @@ func Sub(a, b Term) Term {
 	return binc("bvsub", a, b, func(x, y *big.Int) *big.Int { return new(big.Int).Sub(x, y) })
 }
 func Mul(a, b Term) Term {
-	return binc("bvmul", a, b, func(x, y *big.Int) *big.Int { return new(big.Int).Mul(x, y) })
+	return reg(binc("bvmul", a, b, func(x, y *big.Int) *big.Int { return new(big.Int).Mul(x, y) }), &node{op: "mul", a: a, b: b})
 }
 func And(a, b Term) Term {
 	if a.W == 0 {
